@@ -71,6 +71,11 @@ def build_body(vals):
         return P.get('rrtype', 5), bytes(v)
     if shape == 'keepalive-body':
         return 4, bytes(v)
+    if shape == 'unknown-type':
+        # a well-framed message whose type octet is not one the agent knows; v[0] is the type
+        t = v[0]
+        assume(t != 1 and t != 2 and t != 3 and t != 4 and t != 5 and t != 128)
+        return t, bytes(v[1:])
     raise AssertionError(shape)
 
 
@@ -92,8 +97,18 @@ def ob_contain(b0: int, b1: int, b2: int, b3: int, b4: int, b5: int) -> bool:
         if len(log1) != 1 or log1[0][0] != 'update_received':
             return False
     n1 = len(w.handler.log)
+    # some time has passed since the last message (the hold timer was armed at 0)
+    t_hostile = P.get('dt', 20)
+    if w.fsm.hold_time and t_hostile < w.fsm.hold_time / 3:
+        w.reactor.now = t_hostile
+    hold_before = w.timer_deadline('hold') if w.timer_active('hold') else None
     # ---- the hostile message: nothing may escape ----------------------------------------------------------
     w.ev_data(M)
+    if typ == 2 and len(body) >= 4 and state == S.ESTABLISHED and w.state == S.ESTABLISHED and w.fsm.hold_time:
+        # a malformed UPDATE is still a message from the peer: like any UPDATE it restarts the hold timer, otherwise a
+        # peer that only sends (malformed) UPDATEs loses the session to the hold timer - torn down by a malformed body
+        if not w.timer_active('hold') or w.timer_deadline('hold') != w.reactor.now + w.fsm.hold_time:
+            return False
     # one reactor turn: whatever the message scheduled for "now" runs
     fuel = 4
     while fuel > 0:
@@ -166,6 +181,10 @@ def obligations(tier, seed):
             out.append(ob('C10/ESTABLISHED-hold0/upd-attr/code=%d/val=%d' % (code, nval), 'ob_contain',
                           {'state': S.ESTABLISHED, 'shape': 'upd-attr', 'code': code, 'n': 2 + nval, 'ext': False, 'hold': 0},
                           covers=['delivered'], cap=200 if quick else 600))
+    for st in ([S.OPENSENT, S.OPENCONFIRM, S.ESTABLISHED]):
+        for n in ((1, 3) if quick else (1, 2, 3, 5)):
+            out.append(ob('C10/%s/unknown-type/n=%d' % (S.STATE_NAMES[st], n), 'ob_contain',
+                          {'state': st, 'shape': 'unknown-type', 'n': n}, covers=['delivered'], cap=200 if quick else 600))
     for shape, n in (('upd-lens', 4), ('upd-nlri', 2), ('upd-withdraw', 2), ('rr', 4), ('keepalive-body', 1)):
         out.append(ob('C10/ESTABLISHED-hold0/%s/n=%d' % (shape, n), 'ob_contain',
                       {'state': S.ESTABLISHED, 'shape': shape, 'n': n, 'hold': 0}, covers=['delivered'], cap=200 if quick else 600))
